@@ -65,3 +65,37 @@ Theorem C07_unsigned_members_do_not_count_in_histories : forall O P s c uh att,
   rp_step O P s (InRec (with_unsigned_members c uh att)) = rp_step O P s (InRec c).
 Proof. intros. reflexivity. Qed.
 Print Assumptions C07_unsigned_members_do_not_count_in_histories.
+
+(* ---- the replay half of the property, at the level of whole histories (added in round 11) ----
+   `final O P s h` is the counter the RP has stored after presenting all of h from stored value s
+   (it is the last element of the trace `run` above: HistoryProofs.final_last_run). *)
+From PW Require Import Proofs.HistoryProofs.
+
+(* for EVERY history h1 ++ c :: h2 ++ [c] (any length, anything in between, any oracle behaviour):
+   if c was accepted with a non-zero counter at its first presentation, its later presentation is refused *)
+Theorem C07_no_double_accept_in_histories : forall O P s h1 c h2 r,
+  Forall cred_wf h1 -> cred_wf c -> Forall cred_wf h2 ->
+  verify_auth O (with_count P (final O P s h1)) c = Ok r -> 0 < va_new_count r ->
+  forall r', verify_auth O (with_count P (final O P s (h1 ++ c :: h2))) c = Ok r' -> False.
+Proof. exact history_no_double_accept. Qed.
+Print Assumptions C07_no_double_accept_in_histories.
+
+(* ... hence a replay never advances the RP state *)
+Theorem C07_replay_is_a_noop : forall O P s h1 c h2 r,
+  Forall cred_wf h1 -> cred_wf c -> Forall cred_wf h2 ->
+  verify_auth O (with_count P (final O P s h1)) c = Ok r -> 0 < va_new_count r ->
+  final O P s (h1 ++ c :: h2 ++ [c]) = final O P s (h1 ++ c :: h2).
+Proof. exact replay_is_a_noop. Qed.
+Print Assumptions C07_replay_is_a_noop.
+
+(* the stored counter stays a 32-bit value along every history *)
+Theorem C07_stored_counter_range : forall O P h s, Forall cred_wf h -> 0 <= s < 2 ^ 32 ->
+  0 <= final O P s h < 2 ^ 32.
+Proof. exact final_range. Qed.
+Print Assumptions C07_stored_counter_range.
+
+Example C07_history_nonvacuous :
+  final ex_oracles ex_policy 76 [InRec ex_cred] = 77 /\
+  final ex_oracles ex_policy 76 [InRec ex_cred; InRec ex_cred] = 77 /\
+  final ex_oracles ex_policy 80 [InRec ex_cred] = 80.
+Proof. vm_compute. repeat split. Qed.
